@@ -54,11 +54,11 @@ type frameMon struct {
 	findings  []string
 	failedChk int
 	// offline attribution
-	pending []int // seqs of muts since last snapshot
-	collect bool
-	owner   map[int]int // mut seq -> frame id
-	frames  []*monFrameRec
-	cur     *monFrameRec
+	pending   []int       // seqs of the mutations made since the last instruction callback
+	pendingEv []*h.Event  // the same events
+	owner     map[int]int // mut seq -> frame id
+	frames    []*monFrameRec
+	cur       *monFrameRec
 	// everything any mutation touched so far (the signature domain)
 	addrs    []common.Address
 	addrSeen map[common.Address]bool
@@ -131,37 +131,42 @@ func (m *frameMon) on(e *h.Event) {
 	case h.KSnapshot:
 		m.snaps[e.SnapID] = m.db.Copy()
 		m.lastSnap, m.haveSnap = e.SnapID, true
-		m.collect = true
-		m.pending = m.pending[:0]
 	case h.KMut:
 		if e.Mut == h.MSetState {
 			m.touchKey(e.Addr, e.Key)
 		} else if e.Mut != h.MAddRefund && e.Mut != h.MSubRefund && e.Mut != h.MAddPreimage {
 			m.touch(e.Addr)
 		}
-		if m.collect {
-			m.pending = append(m.pending, e.Seq)
-		} else if m.cur != nil {
-			m.owner[e.Seq] = m.cur.id
-		} else {
-			m.owner[e.Seq] = -1
-		}
+		// ownership is decided when the window between two instructions closes: a frame entered in this
+		// window owns the mutations made on its behalf (value transfer, account creation), wherever the
+		// implementation happened to place its snapshot
+		m.pending = append(m.pending, e.Seq)
+		m.pendingEv = append(m.pendingEv, e)
 	case h.KStart, h.KEnter:
 		rec := &monFrameRec{id: len(m.frames), parent: m.cur, enterSeq: e.Seq, typ: e.Typ, top: e.K == h.KStart}
 		m.frames = append(m.frames, rec)
 		f := monFrame{rec: rec}
-		if m.haveSnap && m.collect {
+		if m.haveSnap {
 			f.snap, f.hasSnap = m.lastSnap, true
 		}
-		for _, s := range m.pending {
-			m.owner[s] = rec.id
+		for i, s := range m.pending {
+			pe := m.pendingEv[i]
+			callerSide := (pe.Mut == h.MSetNonce && pe.Addr == e.From && pe.Addr != e.To) || pe.Mut == h.MAccessAddr || pe.Mut == h.MAccessSlot || pe.Mut == h.MAddRefund || pe.Mut == h.MSubRefund
+			if callerSide {
+				if m.cur != nil {
+					m.owner[s] = m.cur.id
+				} else {
+					m.owner[s] = -1
+				}
+			} else {
+				m.owner[s] = rec.id
+			}
 		}
-		m.pending = m.pending[:0]
-		m.collect = false
+		m.pending, m.pendingEv = m.pending[:0], m.pendingEv[:0]
 		m.haveSnap = false
 		m.stack = append(m.stack, f)
 		m.cur = rec
-	case h.KStep, h.KFault, h.KReturn:
+	case h.KStep, h.KFault, h.KReturn, h.KInvoke:
 		m.flush()
 	case h.KExit, h.KEnd:
 		m.flush()
@@ -191,18 +196,15 @@ func (m *frameMon) on(e *h.Event) {
 }
 
 func (m *frameMon) flush() {
-	if m.collect {
-		for _, s := range m.pending {
-			if m.cur != nil {
-				m.owner[s] = m.cur.id
-			} else {
-				m.owner[s] = -1
-			}
+	for _, s := range m.pending {
+		if m.cur != nil {
+			m.owner[s] = m.cur.id
+		} else {
+			m.owner[s] = -1
 		}
-		m.pending = m.pending[:0]
-		m.collect = false
-		m.haveSnap = false
 	}
+	m.pending, m.pendingEv = m.pending[:0], m.pendingEv[:0]
+	m.haveSnap = false
 }
 
 func (m *frameMon) committed(id int) bool {
